@@ -185,6 +185,8 @@ static std::string tape_from(uIndex first_stmt) {
     os << st->st_index(i) << ":";
     for (uIndex j = st->st_end(i - 1); j < st->st_end(i); ++j) {
       if (j > st->st_end(i - 1)) os << ",";
+      // under hook H1 an out-of-range push is counted but not performed: there is nothing to read there
+      if (j >= st->n_allocated_operations()) { os << "!OOB"; continue; }
       os << num(st->op_mult(j)) << "*" << st->op_index(j);
     }
   }
